@@ -353,7 +353,10 @@ pub fn open_main(rest: &[String]) -> i32 {
                 }
                 Err(e) => {
                     let m = format!("{:#}", e);
-                    if !(m.contains("not found") || m.contains("does not exist") || m.contains("no such")) {
+                    // only "this table is not in the catalog" means absent; "TOAST chunk not found" and the
+                    // like are read errors of an existing table
+                    let absent = (m.contains("table '") && (m.contains("not found") || m.contains("does not exist"))) || m.contains("no such table");
+                    if !absent {
                         tables.insert(t.clone(), json!({"error": m}));
                     }
                 }
@@ -488,6 +491,13 @@ struct Verdicts {
 fn evaluate(dump: &J, cand_prev: &BTreeMap<String, Vec<String>>, cand_next: &BTreeMap<String, Vec<String>>, prior_tables: &BTreeSet<String>, inflight_kind: &str, model: &str, point: &str, out: &mut Verdicts) {
     let sfx = format!("{}/{}", inflight_kind, point);
     let model_s = model.to_string();
+    // C40 speaks about crashes while the catalog is being rewritten: the in-flight statement is DDL (or a
+    // close, which saves catalog and meta), or the crash point itself lies inside a catalog / meta / file
+    // removal step.  A table made unreadable by a crash inside plain DML is C02's `readable`, not C40's.
+    let c40_applies = matches!(inflight_kind, "create_table" | "drop_table" | "create_index" | "drop_index" | "reopen")
+        || point.starts_with("catalog.")
+        || point.starts_with("meta.")
+        || point.starts_with("fm.drop_table");
     if let Some(p) = dump.get("panic") {
         out.v.push(("C02", "reopen_ok".into(), format!("{}/panic/{}", model_s, sfx), json!({"panic": p})));
         out.v.push(("C01", "reopen_ok".into(), format!("{}/panic/{}", model_s, sfx), json!({"panic": p})));
@@ -498,7 +508,7 @@ fn evaluate(dump: &J, cand_prev: &BTreeMap<String, Vec<String>>, cand_next: &BTr
             let cls = if k == "error" { format!("error:{}", super::dmlengine::err_class(p.as_str().unwrap_or(""))) } else { k.to_string() };
             out.v.push(("C02", "reopen_ok".into(), format!("{}/{}/{}", model_s, cls, sfx), json!({k: p})));
             out.v.push(("C01", "reopen_ok".into(), format!("{}/{}/{}", model_s, cls, sfx), json!({k: p})));
-            if !prior_tables.is_empty() {
+            if !prior_tables.is_empty() && c40_applies {
                 out.v.push(("C40", "prior_objects_survive".into(), format!("{}/{}/{}", model_s, cls, sfx), json!({k: p})));
             }
             return;
@@ -511,7 +521,7 @@ fn evaluate(dump: &J, cand_prev: &BTreeMap<String, Vec<String>>, cand_next: &BTr
     // C40: every table that existed before the in-flight statement is present and readable
     for t in prior_tables {
         let present = tables.get(t).map(|x| x.get("rows").is_some()).unwrap_or(false);
-        if !present && cand_next.contains_key(t) {
+        if !present && cand_next.contains_key(t) && c40_applies {
             out.v.push(("C40", "prior_objects_survive".into(), format!("{}/table_lost/{}", model_s, sfx), json!({"table": t, "dump": tables.get(t)})));
         }
     }
